@@ -90,8 +90,10 @@ def run(ctx):
     for g in (["i11", "i23", "i47", "i263", "ed37", "ed53", "ed109"] if thorough else ["i23", "ed37", "ed53"]):
         uni.group(g)
         traces += toy_tables(ctx, uni, g, thorough)
-    for ps, g in [("PEd25519", "Ed25519"), ("P1024", "I1024"), ("P2048", "I2048"), ("P3072", "I3072")]:
-        uni.paramset(ps)
+    zl = ["s136", "m521", "q251", "q64full", "s600", "s72a", "s72b", "m64", "m65", "s264"]
+    for ps, g in [("PEd25519", "Ed25519"), ("P1024", "I1024"), ("P2048", "I2048"), ("P3072", "I3072")] + \
+            [("P" + z, z) for z in (zl if thorough else zl[:3])]:      # + custom groups of unusual shape (core.zoo)
+        uni.paramset(ps, grp=g) if g in zoo() else uni.paramset(ps)
         traces += full_size(ctx, uni, g, thorough)
     # beyond the listed properties, INFORMATIONAL only (never a violation: no listed property speaks about them):
     # type misuse of the API, hash consistency of equal elements, Ed25519 private-key clamping
